@@ -24,7 +24,7 @@ ASSUMPTIONS = ["a tag equal to a declared tag but of another kind (1 vs True) is
 ANCHORS = ['annotations:Tagged._converter', 'converters:TaggedUnionConverter.__init__', 'converters:TaggedUnionConverter.try_convert',
            'converters:TaggedUnionConverter.collect_errors', 'converters:TaggedUnionConverter.into_data', 'convert:_annotated_converter']
 MIN_COUNTERS = {'quick': {'known_tag_checked': 20000, 'bad_tag_checked': 15000, 'serialise_checked': 8000,
-                          'other_variant_would_accept': 500, 'duplicate_tag_types_refused': 100}}
+                          'other_variant_would_accept': 500, 'duplicate_tag_types_refused': 100, 'cross_kind_duplicate_tags_refused': 200}}
 
 
 def shape_class(ty, v):
